@@ -130,28 +130,43 @@ def ungetc (c : Option Nat) (r : List Nat) : List Nat :=
   | none => r
   | some c => c :: r
 
-/-- An unbuffered output stream with an injected fault: the first write call whose byte range
-    contains position `failAt` fails as a whole (the callback accepts nothing), sets the sticky
-    error indicator, and later writes succeed again (one-shot, the harshest case for code that
-    relies on `ferror`). `pos` counts the bytes the caller tried to write. -/
+/-- An unbuffered output stream over an arbitrary sink.  `sink pos n` is the number of bytes the sink accepts of
+    a write call of `n` bytes issued when `pos` bytes had been handed to the stream before (capped at `n`): any
+    prefix of any write call may be all that gets through (a short write: full disk, closed pipe, failing
+    callback).  `pos` counts the bytes the caller tried to write, `out` is what the sink took, `err` is the sticky
+    error indicator (`ferror`), set by every short write, `fired` the number of short write calls. -/
 structure OStream where
   out : List Nat := []
   pos : Nat := 0
-  failAt : Option Nat := none
+  sink : Nat → Nat → Nat := fun _ n => n
   err : Bool := false
   fired : Nat := 0
-  deriving Repr
 
-/-- one `fwrite (p, 1, n, fp)` / `fputc` on an unbuffered stream = one write call; returns the
-    stream and the number of bytes written -/
+/-- one `fwrite (p, 1, n, fp)` / `fputc` / `fprintf` on an unbuffered stream = one write call; returns the
+    stream and the number of bytes written (glibc: a cookie/`write` result below `n` sets the error flag and the
+    short count is what `fwrite` returns) -/
 def OStream.write (s : OStream) (chunk : List Nat) : OStream × Nat :=
   if chunk.isEmpty then (s, 0) else
-  match s.failAt with
-  | some k =>
-      if s.fired = 0 ∧ s.pos ≤ k ∧ k < s.pos + chunk.length then
-        ({ s with pos := s.pos + chunk.length, err := true, fired := s.fired + 1 }, 0)
-      else ({ s with pos := s.pos + chunk.length, out := s.out ++ chunk }, chunk.length)
-  | none => ({ s with pos := s.pos + chunk.length, out := s.out ++ chunk }, chunk.length)
+  let a := min (s.sink s.pos chunk.length) chunk.length
+  ({ s with out := s.out ++ chunk.take a, pos := s.pos + chunk.length,
+            err := s.err || decide (a < chunk.length),
+            fired := s.fired + (if a < chunk.length then 1 else 0) }, a)
+
+/-- the harness's failing sink (harness/ops_io.c `wr_write`): the write call containing byte `k` accepts the bytes
+    in front of `k` (nothing if `k` is its first byte), every later call accepts nothing -/
+def sinkFailAt (k : Nat) : Nat → Nat → Nat :=
+  fun pos n => if k < pos then 0 else if k < pos + n then k - pos else n
+
+/-- a one-shot fault: the write call containing byte `k` is cut short in front of `k`, later calls go through
+    again (catches code that looks at the last return value only and forgets the sticky error indicator) -/
+def sinkOnceAt (k : Nat) : Nat → Nat → Nat :=
+  fun pos n => if pos ≤ k ∧ k < pos + n then k - pos else n
+
+/-- stream with the fault of the harness at byte `k` (`none`: healthy) -/
+def OStream.failing (k : Option Nat) : OStream :=
+  match k with
+  | none => {}
+  | some k => { sink := sinkFailAt k }
 
 /-! ## 3. Raw format -/
 
@@ -625,9 +640,9 @@ def fprintfText (pre : List Nat) (width : Nat) (base : Nat) (x : Int) (post : Li
 
 /-- SPEC (manual: "Return the number of characters written, or -1 if an error occurred"; property
     C17: -1 when a write fails at any byte) -/
-def gmpFprintfSpec (s : OStream) (pre : List Nat) (width base : Nat) (x : Int) (post : List Nat) : Int × Nat :=
+def gmpFprintfSpec (k : Option Nat) (pre : List Nat) (width base : Nat) (x : Int) (post : List Nat) : Int × Nat :=
   let t := fprintfText pre width base x post
-  match s.failAt with
+  match k with
   | some k => if k < t.length then (-1, 1) else (t.length, 0)
   | none => (t.length, 0)
 
